@@ -74,7 +74,7 @@ def job_inputspec(job):
     payload = {"kind": "job", "job": job}
     d = env.scratch_dir("c10i")
     D = stddata.Data(d)
-    bed = D.bed_subset(["L1", "L5", "L3", "L7"], "sub.bed")
+    bed = D.bed_subset(["L1", "L5", "L3", "L7", "L4", "L6"], "sub.bed")
     hv = D.save_vcf(stddata.run(D.assemble_args(bed=bed)), "asm_in.vcf") if prog != "assemble" else None
     env.quiet()
     ped_extra = D.pedigree_files() if prog == "call-pedigree" else []
